@@ -1,6 +1,6 @@
 SPECIFICATION Spec
 CONSTANTS
-  GroupLists <- Groups5
+  GroupLists <- OneGroup4
   GroupThreshold = 3
   ClientHonest = 2
   Envs <- OneEnv
